@@ -5,6 +5,8 @@ import SJ.Props.StreamTyped
 import SJ.Props.C09LineCol
 import SJ.Props.C09RawNested
 import SJ.Props.C09Tok
+import SJ.Props.C09Readers
+import SJ.Props.C09ReadersRaw
 #print axioms SJ.Props.C09.c09_slice_reader
 #print axioms SJ.Props.C09.c09_str_slice_ignored
 #print axioms SJ.Props.C09.c09_str_slice_value
@@ -38,3 +40,17 @@ import SJ.Props.C09Tok
 #print axioms SJ.Props.C09Tok.c09_rv_token_not_string_reader_later
 #print axioms SJ.Props.C09Tok.c09_ap_token_not_string_reader_later
 #print axioms SJ.Props.C09Tok.c09_token_sources_differ
+#print axioms SJ.Props.C09.c09_machine_string_steps
+#print axioms SJ.Props.C09.c09_slice_str_refines
+#print axioms SJ.Props.C09.c09_strread_str_refines
+#print axioms SJ.Props.C09.c09_io_str_refines
+#print axioms SJ.Props.C09.c09_io_str_state
+#print axioms SJ.Props.C09.c09_slice_ignore_refines
+#print axioms SJ.Props.C09.c09_io_ignore_refines
+#print axioms SJ.Props.C09.c09_str_readers_agree
+#print axioms SJ.Props.C09.c09_str_readers_positions
+#print axioms SJ.Props.C09.c09_strread_slice
+#print axioms SJ.Props.C09.c09_hex_escape_cut
+#print axioms SJ.Props.C09.c09_slice_raw_refines
+#print axioms SJ.Props.C09.c09_io_raw_refines
+#print axioms SJ.Props.C09.c09_raw_readers_agree
